@@ -511,6 +511,11 @@ func (h *seqHist) opTruncate(subseq bool) {
 	}
 	s := cs + rng.Intn(ce-cs)
 	e := s + 1 + rng.Intn(ce-s)
+	if rng.Intn(8) == 0 { // a range of no columns (anywhere from the first common position to just past the last)
+		s = cs + rng.Intn(ce-cs+1)
+		e = s
+		h.r.Count("zero_width_ranges", 1)
+	}
 	nm := h.m.clone()
 	for i := range nm.Rows {
 		r := &nm.Rows[i]
